@@ -1,5 +1,5 @@
 (* C08: concrete witnesses (evaluated inside Coq) *)
-From Boltons Require Import Lib.Prelude Lib.C08_Py Spec.C08_Spec Model.C08_Model Proofs.C08_Tree.
+From Boltons Require Import Lib.Prelude Lib.C08_Py Spec.C08_Spec Model.C08_Model Proofs.C08_Tree Proofs.C08_Paths.
 
 (* {'k': [4, (5, 6)], 'j': {7}} *)
 Definition ex_tree : obj :=
@@ -20,6 +20,16 @@ Definition ex_cyclic : obj :=
 Lemma ex_cyclic_ok :
   imm_backref [] ex_cyclic = false /\ exists v m lg, spec_remap None ex_cyclic = Done v m lg.
 Proof. split; [reflexivity|]. eexists. eexists. eexists. vm_compute. reflexivity. Qed.
+
+Lemma ex_paths_ok :
+  wf_keys ex_cyclic /\ exists l, research (fun _ _ _ => true) ex_cyclic = Ok l
+    /\ In ([KT 1; KI 1; KI 0], RLeaf 5) l
+    /\ crosses_set (collect_defs ex_cyclic) ex_cyclic [KT 1; KI 1; KI 0] = false.
+Proof.
+  split.
+  - cbn. repeat split; try reflexivity; repeat constructor; cbn; intuition discriminate.
+  - eexists. split; [vm_compute; reflexivity|]. split; [cbn; tauto|reflexivity].
+Qed.
 
 (* t = (l,), l = [t] *)
 Definition tuple_cycle : obj := ONode 0 KTuple [(KI 0, ONode 1 KList [(KI 0, ORef 0 KTuple)])].
